@@ -88,9 +88,10 @@ pub fn run(args: &Args) {
     let fee_sets: [(u128, u128, u128); 3] = [(DEC / 100, DEC / 100, 0), (DEC / 1000, 3 * DEC / 1000, 2 * DEC / 1000 + 1), (0, 0, 0)];
     let z = 600_000u128;
     let mut all: Vec<(bool, bool, (u128, u128, u128), Vec<Act>)> = vec![];
-    for fees in fee_sets {
+    for (fi, fees) in fee_sets.into_iter().enumerate() {
         for via_router in [false, true] {
-            for s in enumerate(z, fees, via_router, if thorough { 3 } else { 2 }) {
+            // thorough: length 3 for the first fee triple, length 2 for the others
+            for s in enumerate(z, fees, via_router, if thorough && fi == 0 { 3 } else { 2 }) {
                 for cw20 in [false, true] { all.push((cw20, via_router, fees, s.clone())); }
             }
         }
